@@ -1,6 +1,6 @@
 (* C01  Built message's envelope carries exactly the sender and recipients given.  Statements only. *)
 From LV Require Import Base.Bytes Base.Utf8 Base.Res Model.Address Model.Mailbox Model.Builder Spec.Envelope
-  Proofs.BuilderProofs Proofs.MailboxProofs Proofs.MailboxListProofs.
+  Proofs.BuilderProofs Proofs.MailboxProofs Proofs.MailboxListProofs Proofs.MailboxNamedListProofs Proofs.BuilderNamedProofs.
 
 (* For EVERY sequence of builder calls (any number of from / sender / to / cc / bcc / reply_to /
    envelope / keep_bcc in any order) whose mailboxes belong to a class P that survives
@@ -39,6 +39,19 @@ Proof.
     exists m. split; [exact Hm|reflexivity].
 Qed.
 
+(* The premises discharged for mailboxes WITH display names: every mailbox whose address is run(.run)*@run(.run)*
+   (accepted unchanged by the address constructor) and whose display name is absent, or - once trimmed - atom
+   words separated by SP/TAB runs of any length, or any other text without NUL, LF, CR (commas, quotes,
+   backslashes, angle brackets, controls, non-ASCII: written as a quoted string).  For every call sequence
+   over such mailboxes the built envelope is exactly the specified one, although the builder stores each header
+   as text and re-parses it on every later call (which shortens inner SP/TAB runs of names - never an address).
+   What stays outside are the findings F1-F4: names with CR / LF / NUL, quoted local parts, domain literals. *)
+Theorem C01_envelope_named :
+  forall (alnum : N -> bool) (idna : ustr -> option ustr) (ip_ok : ustr -> bool) (ops : list bop),
+  Forall (op_ok (Pnamed alnum idna ip_ok)) ops ->
+  build_ops alnum idna ip_ok ops = spec_build ops.
+Proof. exact build_eq_spec_named. Qed.
+
 (* the premises cannot simply be dropped: findings F1 (panic) and F2 (silent replacement), for any oracles *)
 Theorem C01_refuted_crlf_panics : forall alnum idna ip_ok,
   build_ops alnum idna ip_ok [BList HFrom (mkMb (Some [97; 10; 98]) [97; 64; 120])] = Panic.
@@ -63,6 +76,27 @@ Proof.
   - vm_compute. reflexivity.
 Qed.
 
+(* non-vacuity of the named class: " Doe,  J " <kayo@ex.com> (a name that needs quotes, with surrounding blanks and
+   an inner run of two spaces) is in it under ASCII oracles, and a call list over it is built as specified *)
+Example C01_named_example :
+  let alnum := is_alnum_ascii in let idna := (fun d : ustr => Some d) in let ip_ok := (fun _ : ustr => false) in
+  let a := mkSA [107;97;121;111] [] [101;120] [[99;111;109]] in
+  let m := mkMb (Some [32; 68; 111; 101; 44; 32; 32; 74; 32]) (sa_str a) in
+  Pnamed alnum idna ip_ok m /\
+  build_ops alnum idna ip_ok [BList HFrom m; BList HTo m; BList HTo m] = Ok (mkEnv (Some (sa_str a)) [sa_str a; sa_str a], false).
+Proof.
+  cbn zeta. split.
+  - exists (KQuoted [32; 68; 111; 101; 44; 32; 32; 74; 32] [([], 68); ([], 111); ([], 101); ([], 44); ([32; 32], 74)]
+              (mkSA [107;97;121;111] [] [101;120] [[99;111;109]])).
+    split; [|reflexivity]. split; [|split].
+    + cbn [k_shape]. split; [reflexivity|]. split; [discriminate|]. split; [|reflexivity].
+      repeat constructor; cbn; try discriminate; try reflexivity.
+    + cbn [k_addr]. repeat split; try discriminate; try reflexivity; repeat constructor; discriminate.
+    + cbn [k_addr]. unfold addr_accepted. eexists. split; vm_compute; reflexivity.
+  - vm_compute. reflexivity.
+Qed.
+
 Print Assumptions C01_envelope.
 Print Assumptions C01_envelope_bare_addresses.
 Print Assumptions C01_refuted_crlf_panics.
+Print Assumptions C01_envelope_named.
